@@ -338,7 +338,7 @@ def magnitude_cases(v: str) -> list[tuple[str, str]]:
                       "format-integer(xs:integer(%s), '1')", "format-integer(xs:integer(%s), 'w')", "format-integer(xs:integer(%s), 'i')",
                       "format-integer(xs:integer(%s), 'A')", 'math:sqrt(%s)', 'math:exp(%s)', 'math:log(%s)', 'math:log10(%s)',
                       'math:sin(%s)', 'math:cos(%s)', 'math:tan(%s)', 'math:asin(%s)', 'math:acos(%s)', 'math:atan(%s)',
-                      'math:pow(%s, 2)', 'math:pow(%s, 0.5)', 'math:pow(2, %s)', 'math:pow(%s, %s)', 'math:atan2(%s, 1)',
+                      'math:pow(%s, 2)', 'math:pow(%s, 0.5)', 'math:pow(2, xs:double(%s))', 'math:pow(xs:double(%s), xs:decimal(0.5))', 'math:atan2(%s, 1)',
                       'math:atan2(1, %s)', '%s ! (. * .)', 'for-each((%s, 1), function($x) { $x * $x })',
                       'fold-left((%s, %s, %s), 0, function($a, $b) { $a + $b })', 'string(%s) || "x"', 'head((%s, 1)) div tail((1, %s))']
         if v >= '3.1':
@@ -541,7 +541,7 @@ def mutate(rng, tokenizer, symbols: list[str], src: str) -> tuple[str, str]:
     if not toks:
         return src + rng.choice(symbols), 'append'
     kind = rng.choice(['delete', 'duplicate', 'swap', 'lit2name', 'name2lit', 'unbalance', 'replace',
-                       'truncate', 'insert', 'despace', 'join'])
+                       'truncate', 'insert', 'despace', 'join', 'comment'])
     i = rng.randrange(len(toks))
     if kind == 'delete':
         del toks[i]
@@ -570,6 +570,9 @@ def mutate(rng, tokenizer, symbols: list[str], src: str) -> tuple[str, str]:
         toks = toks[:i]
     elif kind == 'insert':
         toks.insert(i, ' ' + rng.choice(symbols) + ' ')
+    elif kind == 'comment':     # a well-formed (possibly nested) or broken comment at a token boundary
+        toks.insert(i, rng.choice([' (: c :) ', '(: a (: b :) c :)', ' (::) ', '(: :', ' (: "q :) ', ':(: c :)', '(: c :):',
+                                   ' (: (: (: :) :) ', '(:' + 'x ' * 40 + ':)']))
     elif kind == 'despace':
         toks = [t for t in toks if not t.isspace()]
     elif kind == 'join':
